@@ -381,6 +381,8 @@ def rule_K1(ctx) -> None:
     if set(specials) != set(consts):
         raise AnalysisError("reference JSON constants changed")
 
+    mod_env = {k: v for k, v in mod.consts.items() if isinstance(v, (str, int, float)) and type(v).__name__ not in ("SymName", "SymCall", "SymLambda")}
+
     def taken(paths, env):
         out = []
         for p in paths:
@@ -394,18 +396,39 @@ def rule_K1(ctx) -> None:
     for q in ("_dump_float", "_parse_float"):
         fn = mod.func(q)
         params = [a.arg for a in fn.args.args]
-        if len(params) != 1:
-            raise AnalysisError(f"{q} no longer takes exactly one argument")
+        n_defaults = len(fn.args.defaults)
+        if len(params) - n_defaults > 1 or not params:
+            raise AnalysisError(f"{q} no longer takes exactly one required argument")
+        # further parameters: one that names the proto type is tried with both floating types, any other keeps its default
+        extra_envs: List[Dict[str, Any]] = [{}]
+        for prm, dflt in zip(params[len(params) - n_defaults:], fn.args.defaults):
+            if prm == params[0]:
+                continue
+            if "type" in prm.lower():
+                extra_envs = [dict(e_, **{prm: t_}) for e_ in extra_envs for t_ in ("float", "double")]
+            else:
+                try:
+                    dv = fold(dflt, mod.consts)
+                except _Unfoldable:
+                    raise AnalysisError(f"{q}: default of {prm} does not fold")
+                extra_envs = [dict(e_, **{prm: dv}) for e_ in extra_envs]
         paths = Interp(mod, fork_ifexp=True).run(fn)
         ctx.count(len(paths))
         if q == "_dump_float":
-            cases = [(f"{k}", v, consts[k]) for k, v in specials.items()] + [("finite", 1.5, 1.5), ("zero", 0.0, 0.0), ("negative", -2.25, -2.25), ("int", 3, 3)]
+            # besides the specials: both zeros, whole numbers, a value beyond 2**53, and single-precision values whose shortest
+            # decimal form needs nine digits (what is emitted must read back as the very same float)
+            cases = [(f"{k}", v, consts[k]) for k, v in specials.items()] + [("finite", 1.5, 1.5), ("zero", 0.0, 0.0), ("negative zero", -0.0, -0.0), ("negative", -2.25, -2.25), ("int", 3, 3),
+                                                                             ("whole", 7.0, 7.0), ("large", 2.0 ** 100, 2.0 ** 100), ("float32 nine digits", -103.21731567382812, -103.21731567382812),
+                                                                             ("float32 max", 3.4028234663852886e+38, 3.4028234663852886e+38), ("tenth", 0.1, 0.1)]
         else:
             cases = [(f"{k}", consts[k], v) for k, v in specials.items()] + [("number", 1.5, 1.5), ("numeric-string", "2.5", 2.5)]
+        cases = [(label + (f" [{', '.join(f'{k_}={v_}' for k_, v_ in e_.items())}]" if e_ else ""), arg, want, e_) for label, arg, want in cases for e_ in extra_envs]
         bad = []
         unknown = []
-        for label, arg, want in cases:
-            env = {params[0]: arg}
+        for label, arg, want, e_ in cases:
+            env = dict(mod_env)
+            env.update(e_)
+            env[params[0]] = arg
             sel, why = taken(paths, env)
             if sel is None:
                 unknown.append(f"{label}: {why}")
@@ -422,7 +445,20 @@ def rule_K1(ctx) -> None:
             except concrete.Unknown as e:
                 unknown.append(f"{label}: result {show(p.value)} ({e})")
                 continue
-            ok = concrete.same_float(got, want) if isinstance(want, float) else (type(got) is type(want) and got == want)
+            if isinstance(want, float) and _math.isfinite(want) and isinstance(got, (int, float)) and not isinstance(got, bool):
+                # a finite number: the emitted number denotes the same value (a whole number may be printed without fraction),
+                # and the sign of zero survives
+                try:
+                    if "float" in e_.values():
+                        # a single-precision field: what is emitted has to read back as the same float32
+                        import struct as _struct
+                        ok = _struct.pack("<f", float(got)) == _struct.pack("<f", want)
+                    else:
+                        ok = float(got) == want and _math.copysign(1.0, float(got)) == _math.copysign(1.0, want)
+                except (OverflowError, _struct.error if "float" in e_.values() else OverflowError):
+                    ok = False
+            else:
+                ok = concrete.same_float(got, want) if isinstance(want, float) else (type(got) is type(want) and got == want)
             if not ok:
                 bad.append((label, arg, got, want))
         name = f"{q}:special-names"
